@@ -58,7 +58,7 @@ def violates(run, case, impl, model):
     # delivered twice, or a delivery goes elsewhere than the model's (exactly-once destination).
     return True
 
-LEVEL_TEXT = ("Proved for all op lists and all interleavings. Single-promise model: resolve_once, pipelined_exactly_once, client_idempotent, no_stuck, waiters_released, proxy_clients_resolved_and_released, result_read_alive. Model with Join (joined chains, any number of promises): pipelined_exactly_once (count, caller only before resolution, destination), resolve_once per promise, mutex discipline and mu free at rest, forest invariant, no deadlock on the mutexes, no_stuck and waiters_released in the single-promise shape (neither Fulfill nor ReleaseClients waits forever for a proxy hook), proxy_clients_resolved_and_released (every proxy on a chain ending at a resolved promise has that resolution at its path; every proxy is in a table, in the loop of the ReleaseClients that took it, or released), client_idempotent (same proxy while the end promise is unchanged and unresolved), client-table reference conservation and per-chain release. Refuted: F11, resolve deadlock, result lifetime, F11c, seeded C11-3 and C11-r2-1, self-join and cyclic join. Model tied to answer.go by synctest histories (sequenced, with Join, launch groups checked against the explored outcome set).")
-LEVEL_NOTE = "Premises of the chain theorems (C11_join_premises_satisfiable shows they hold together): jv_close_joined, jv_alloc_table (and jv_refs_sum for the release accounting) = the code as it is, each switched-off variant is refuted and detected on the patched code; join_ordered = precondition of Promise.Join (a promise only joins promises of lower index; self-join and cyclic joins are refuted; all harness generators respect it). Partial: only the relation between the two models (C11_join_zero_joins_inert_partial: with zero Joins the Join-specific state is inert; no step-by-step simulation). On chains the 'same proxy' part of client_idempotent is stated for calls that ended at the same, still unresolved promise (across a Join the code itself returns the other promise's proxy; both resolve to the same capability). See docs/C11.md."
+LEVEL_TEXT = ("Proved for all op lists and all interleavings. Single-promise model: resolve_once, pipelined_exactly_once, client_idempotent, no_stuck, waiters_released, proxy_clients_resolved_and_released, result_read_alive. Model with Join (joined chains, any number of promises): pipelined_exactly_once (count, caller only before resolution, destination = result of the end of the chain reached from the call's receiver), resolve_once per promise, mutex discipline and mu free at rest, forest invariant, no deadlock on the mutexes, no_stuck at rest (a call is held in a PipelineCaller, or every unfinished operation is blocked on a promise that depends, along next edges and Joins in progress, on a promise nobody asked to resolve; neither Fulfill nor ReleaseClients waits forever for a proxy hook), waiters_released per chain and waiters_enabled, proxy_clients_resolved_and_released (every proxy on a chain ending at a resolved promise has that resolution at its path; every proxy is in a table, in the loop of the ReleaseClients that took it, or released), client_idempotent (same proxy while the end promise is unchanged and unresolved), client-table reference conservation and per-chain release. Refuted: F11, resolve deadlock, result lifetime, F11c, seeded C11-3 and C11-r2-1, self-join and cyclic join. Model tied to answer.go by synctest histories (sequenced, with Join, launch groups checked against the explored outcome set).")
+LEVEL_NOTE = "Premises of the chain theorems (C11_join_premises_satisfiable shows they hold together): jv_close_joined, jv_alloc_table (and jv_refs_sum for the release accounting) = the code as it is, each switched-off variant is refuted and detected on the patched code; join_ordered = precondition of Promise.Join (a promise only joins promises of lower index; self-join and cyclic joins are refuted; all harness generators respect it). Partial: only the relation between the two models (C11_join_zero_joins_inert_partial: with zero Joins the Join-specific state is inert; no step-by-step simulation). On chains the 'same proxy' part of client_idempotent is stated for calls that ended at the same, still unresolved promise (across a Join the code itself returns the other promise's proxy; both resolve to the same capability). Limits of the statements: no_stuck (both models) is deadlock freedom at rest, there is no termination measure / no-livelock theorem (the loops are finite by C11_join_forest, not stated); single-promise pipelined_exactly_once has the destination clause for PipelineSend calls only (calls through a returned client: count and wf_log; the chain theorem has it for both); calls through an already resolved or released client (JEDirect) are only counted; in the Join model Go's map iteration order is the table's insertion order, and a nil channel field proceeds (wait states are entered only when it was open); join_ordered is a numbering condition, met by any acyclic Join graph up to renumbering (not proved); context cancellation is not modelled. See docs/C11.md."
 TECHNIQUE = "Coq proof over an executable small-step model + extracted-model/implementation differential run under synctest"
 DESIGN_REF = "DESIGN.md section 6, C11"
